@@ -182,6 +182,9 @@ def cases(tier):
     n = len(_fuzzy_diamonds())
     for lo in range(0, n, 8):
         yield ("diamond", lo, min(n, lo + 8), 0)
+    for cmd in SIG.DATA_COMMANDS:
+        if SIG.input_fuzz(cmd) != "fz":
+            yield ("netcdf", cmd)
 
 
 def _fuzzy_diamonds():
@@ -309,8 +312,90 @@ def _brief(sig):
     return sig[0] if sig[0] == "ok" else "%s %s" % sig[:2]
 
 
+NETCDF = ("mpilot.libraries.eems.basic", "mpilot.libraries.eems.netcdf", "mpilot.libraries.eems.fuzzy")
+
+
+def _run_netcdf(case):
+    """the same oracle over the NetCDF library set: a float grid with missing cells and a grid read with DataType = Fuzzy whose values lie in
+    the accepted 1 % tolerance around [-1, +1] (and must therefore be limited to the range); every non-fuzzy-input command over them, in
+    canonical and reversed file order"""
+    from netCDF4 import Dataset
+    from mpilot.exceptions import MPilotError
+    from mpilot.program import Program
+
+    _, cmd = case
+    work = snapshot.scratch_dir("c02n_")
+    viols, outcomes = [], {}
+    evals = judged = 0
+    sample = None
+    A = [1.5, None, 0.25, 5.0]
+    Z = [-1.01, 0.25, 1.015, 0.5]
+    try:
+        with Dataset(os.path.join(work, "in.nc"), "w") as ds:
+            ds.createDimension("y", 2)
+            ds.createDimension("x", 2)
+            ds.createVariable("y", "f8", ("y",))[:] = [0.0, 1.0]
+            ds.createVariable("x", "f8", ("x",))[:] = [0.0, 1.0]
+            va = ds.createVariable("A", "f8", ("y", "x"), fill_value=-9999.0)
+            va[:] = numpy.ma.MaskedArray([[1.5, 0.0], [0.25, 5.0]], mask=[[False, True], [False, False]])
+            ds.createVariable("Z", "f8", ("y", "x"))[:] = numpy.array(Z).reshape(2, 2)
+        q = lambda s_: ("q", s_)
+        b = lambda s_: ("bare", s_)
+        base = [("A", "EEMSRead", [("InFileName", q("in.nc")), ("InFieldName", b("A"))]),
+                ("Z", "EEMSRead", [("InFileName", q("in.nc")), ("InFieldName", b("Z")), ("DataType", b("Fuzzy"))])]
+        env0 = {"A": [None if v is None else REF.fr(v) for v in A], "Z": [REF.clamp(REF.fr(v)) for v in Z]}
+        for pi, params in enumerate(D.presets_small(cmd, 2)):
+            for ins in _bindings(cmd, [("A", False), ("Z", False)]):
+                p_ = dict(params)
+                if "Weights" in p_:
+                    p_["Weights"] = (list(p_["Weights"]) * 3)[:len(ins)]
+                ref = REF.apply(cmd, [env0[i] for i in ins], p_)
+                prog = base + [_cmd_ast("R", cmd, params, ins)]
+                first = None
+                for order in ((0, 1, 2), (2, 1, 0), (1, 2, 0)):
+                    text = G.render(G.items_of([prog[i] for i in order]))[0]
+                    try:
+                        with contextlib.redirect_stdout(io.StringIO()), numpy.errstate(all="ignore"):
+                            p = Program.from_source(text, libraries=NETCDF, working_dir=work)
+                            p.run()
+                        res = ("ok", {n_: c.result for n_, c in p.commands.items()})
+                    except MPilotError as exc:
+                        res = ("err", type(exc).__name__, str(exc).split("\n")[0][:120])
+                    evals += 1
+                    tag = {"model": "R=%s%r %r" % (cmd, ins, params), "order": list(order), "text": text, "libraries": "netcdf"}
+                    sample = tag
+                    sig = ("ok", tuple(sorted((n_, _sig(a)) for n_, a in res[1].items()))) if res[0] == "ok" else ("err", res[1])
+                    if first is None:
+                        first = sig
+                        if res[0] == "ok":
+                            for n_, want in (("A", env0["A"]), ("Z", env0["Z"])):
+                                for kind, msg in D.compare(res[1][n_].ravel(), want, True, (4,)):
+                                    viols.append(V("C02:netcdf.EEMSRead:%s" % kind, "grid %s read through the NetCDF library: %s" % (n_, msg), **tag))
+                                    break
+                            if ref[0] == "ok":
+                                judged += 1
+                                for kind, msg in D.compare(res[1]["R"].ravel(), ref[1], True, (4,)):
+                                    viols.append(V("C02:%s:%s:netcdf" % (cmd, kind), "result of [%s] over NetCDF data: %s" % (tag["model"], msg), **tag))
+                                    break
+                        elif ref[0] == "ok":
+                            judged += 1
+                            viols.append(V("C02:%s:well-typed-model-fails:%s:netcdf" % (cmd, res[1]), "model [%s] fails with %s: %s" % (tag["model"], res[1], res[2]), **tag))
+                    elif sig != first:
+                        viols.append(V("C02:order-dependence:file-order:netcdf", "model [%s]: file order %r changes the outcome" % (tag["model"], order), **tag))
+                    k = "netcdf:%s:%s" % (cmd, res[0] if res[0] == "ok" else res[1])
+                    outcomes[k] = outcomes.get(k, 0) + 1
+            if len(viols) > 30:
+                del viols[30:]
+    finally:
+        import shutil
+        shutil.rmtree(work, ignore_errors=True)
+    return {"evals": max(evals, 1), "nontrivial": evals, "judged": judged, "viols": viols, "outcomes": outcomes, "sample": sample}
+
+
 def run(case):
     case = tuple(case)
+    if case[0] == "netcdf":
+        return _run_netcdf(case)
     viols, outcomes = [], {}
     counters = {"judged": 0, "unspecified": 0, "unstable": 0}
     evals = 0
